@@ -2,7 +2,7 @@
    for all expression trees (under wf and D). *)
 From Coq Require Import ZArith Reals Lra Lia List Bool Psatz.
 From Verif Require Import Base.Num Base.Vec Base.VecR C08.Model C08.VecLemmas C08.Rules C08.ConjRules
-  C08.Leaves C08.ProxRules.
+  C08.Leaves C08.ProxRules C08.ProjL1.
 Import ListNotations.
 Local Open Scope R_scope.
 
@@ -337,6 +337,18 @@ Proof.
       * assert (a = 0) by lra. subst. rewrite Rabs_R0 in Hgt'. lra.
 Qed.
 
+Lemma vlin_neg_add (q x : Rvec) : length q = length x -> vadd (vlin (- (1)) q 1 x) q = x.
+Proof.
+  revert x; induction q as [|a q IH]; intros [|b x] Hl; cbn in Hl; try lia; [reflexivity|].
+  unfold vadd, vlin in *. cbn [vmap2]. rewrite IH by lia. numR. f_equal. ring.
+Qed.
+Lemma vlin_neg_add_scaled (r x : Rvec) sigma : sigma <> 0 -> length r = length x ->
+  vadd r (vscal sigma (vlin (- (1)) (vscal (1 / sigma) r) 1 (vscal (1 / sigma) x))) = x.
+Proof.
+  intros Hs. revert x; induction r as [|a r IH]; intros [|b x] Hl; cbn in Hl; try lia; [reflexivity|].
+  unfold vadd, vlin, vscal in *. cbn [map vmap2]. rewrite IH by lia. numR. f_equal. field. assumption.
+Qed.
+
 Lemma vadd_vscal_same a c (x : Rvec) : vadd (vscal a x) (vscal c x) = vscal (a + c) x.
 Proof. induction x as [|p x IH]; [reflexivity|]. unfold vadd, vscal in *. cbn [map vmap2]. rewrite IH. numR. f_equal. ring. Qed.
 Lemma vadd_zero_r_map s (x y : Rvec) : length y = length x ->
@@ -359,12 +371,27 @@ Theorem moreau_all e : forall n w x sigma p q,
   vadd p (vscal sigma q) = x.
 Proof.
   fxind2 e; intros n w x sigma r q Hwf HD Lw Lx Hs Hp Hq; cbn [D] in HD; try contradiction.
-  - (* FLp *) destruct p; [| |contradiction].
+  - (* FLp *) destruct p.
+    3:{ (* LpNorm(inf): x - proj_l1(x, sigma)  and  proj_l1(x / sigma, 1) *)
+      unfold ProxRules.cprox in Hq. cbn [cconj pconj prox] in Hp, Hq. numR.
+      replace (proj_l1 (vscal (1 / sigma) x) 1) with (proj_l1 (vscal (1 / sigma) x) (1 / sigma * sigma)) in Hq
+        by (f_equal; field; lra).
+      rewrite (proj_l1_scale (1 / sigma) ltac:(apply Rdiv_lt_0_compat; lra)) in Hq.
+      destruct (proj_l1 x sigma) as [q0|] eqn:E0; cbn [rbind] in Hp; inv_ok.
+      rewrite vscal_inv_r by lra. apply vlin_neg_add.
+      rewrite (proj_l1_length x sigma q0 E0). reflexivity. }
     + cbn in Hp, Hq. inv_ok. apply moreau_pointwise. intros a. apply soft_clip. assumption.
     + unfold ProxRules.cprox in Hq. cbn [cconj pconj prox] in Hp, Hq. inv_ok.
       apply moreau_conj_inv in Hq; [|lra]. destruct Hq as (p' & Hp' & ->). cbv beta in Hp'. inv_ok.
       apply moreau_by_def; [lra|]. rewrite prox_l2_length. reflexivity.
-  - (* FIndBall *) destruct p; [contradiction| |].
+  - (* FIndBall *) destruct p.
+    1:{ (* l1 ball: proj_l1(x, 1)  and  x/sigma - proj_l1(x / sigma, 1 / sigma) *)
+      unfold ProxRules.cprox in Hq. cbn [cconj pconj prox] in Hp, Hq. numR.
+      replace (proj_l1 (vscal (1 / sigma) x) (1 / sigma)) with (proj_l1 (vscal (1 / sigma) x) (1 / sigma * 1)) in Hq
+        by (f_equal; field; lra).
+      rewrite (proj_l1_scale (1 / sigma) ltac:(apply Rdiv_lt_0_compat; lra)) in Hq.
+      rewrite Hp in Hq. cbn [rbind] in Hq. inv_ok.
+      apply vlin_neg_add_scaled; [lra|]. rewrite (proj_l1_length x 1 r Hp). reflexivity. }
     + unfold ProxRules.cprox in Hq. cbn [cconj pconj prox] in Hp, Hq. inv_ok.
       unfold moreau_conj in Hp. cbn [rbind] in Hp. inv_ok.
       apply vsub_vadd_cancel. rewrite vscal_length, prox_l2_length, vscal_length. reflexivity.
